@@ -156,3 +156,112 @@ class DesignConditions(Contract):
         if bad:
             return {"confirmed": True, "detail": f"(polygon, abscissa, returned design condition, largest ordinate of the polygon there): {bad}"}
         return {"confirmed": False, "detail": f"star-shaped contour: {dc.tolist()}; closing-edge polygons: top ordinates as expected"}
+
+
+IX = "virocon._intersection."
+
+
+def _seg_overlap(x1, y1, x2, y2, i, j):
+    """closed bounding boxes of segment i of curve 1 and segment j of curve 2 have a common point"""
+    def mn(a, b):
+        return T.ite(T.lt(a, b), a, b)
+
+    def mx(a, b):
+        return T.ite(T.gt(a, b), a, b)
+    out = []
+    for c1, c2 in ((x1, x2), (y1, y2)):
+        a0, a1 = c1.get((i,)), c1.get((T.add(i, 1),))
+        b0, b1 = c2.get((j,)), c2.get((T.add(j, 1),))
+        out.append(T.le(mn(a0, a1), mx(b0, b1)))
+        out.append(T.ge(mx(a0, a1), mn(b0, b1)))
+    return T.land(*out)
+
+
+@contract(IX + "_rectangle_intersection_", ["C17"], [dict()], name="intersection.candidate_pairs")
+class CandidatePairs(Contract):
+    """the prefilter of the curve-intersection routine: for two polylines with n1 and n2 segments (symbolic) it
+    returns exactly the index pairs (i, j) whose closed segment bounding boxes overlap - every returned pair is in
+    range and overlaps, every overlapping pair is returned, none twice; lemma: two segments with a common point have
+    overlapping boxes, so no crossing pair is ever discarded before the linear solve"""
+
+    def inputs(self, itp, case):
+        cx = itp.cx
+        self.n1, self.n2 = cx.sym("n1", "int"), cx.sym("n2", "int")
+        cx.assume(T.land(T.ge(self.n1, 1), T.ge(self.n2, 1)))
+        self.x1 = sym_array(cx, "x1", (T.add(self.n1, 1),))
+        self.y1 = sym_array(cx, "y1", (T.add(self.n1, 1),))
+        self.x2 = sym_array(cx, "x2", (T.add(self.n2, 1),))
+        self.y2 = sym_array(cx, "y2", (T.add(self.n2, 1),))
+        return [self.x1, self.y1, self.x2, self.y2], {}
+
+    def post(self, itp, case, inp, out):
+        cx = itp.cx
+        if out.outcome != "return":
+            cx.oblige("post.returns", False, "post", f"raised {out.exc}: {out.msg}")
+            return
+        r = out.value
+        ok = isinstance(r, tuple) and len(r) == 2 and all(isinstance(a, SArr) and a.ndim == 1 and a.dtype == "int" for a in r)
+        cx.oblige("post.two_index_arrays", ok, "post", "(ii, jj): segment indices into curve 1 and curve 2")
+        if not ok:
+            return
+        ii, jj = r
+        m = ii.shape[0]
+        cx.oblige("post.same_length", T.eq(m, jj.shape[0]), "post")
+        n1, n2 = self.n1, self.n2
+        ov = lambda i, j: _seg_overlap(self.x1, self.y1, self.x2, self.y2, i, j)
+        (k,) = fresh_index(cx, (m,))
+        ik, jk = ii.get((k,)), jj.get((k,))
+        cx.oblige("post.pair.in_range", T.land(T.ge(ik, 0), T.lt(ik, n1), T.ge(jk, 0), T.lt(jk, n2)), "post", "a segment of curve 1 paired with a segment of curve 2")
+        cx.oblige("post.pair.boxes_overlap", ov(ik, jk), "post", "only pairs whose closed bounding boxes overlap are kept (closed: touching boxes count)")
+        (k2,) = fresh_index(cx, (m,))
+        cx.oblige("post.pair.once", T.implies(T.ne(k, k2), T.lor(T.ne(ik, ii.get((k2,))), T.ne(jk, jj.get((k2,))))), "post", "no pair is listed twice")
+        # completeness: an arbitrary overlapping pair is in the list
+        i, j = fresh_index(cx, (n1, n2))
+        ms = getattr(ii, "masksel", None)
+        src = getattr(ii, "nonzero_of", None)
+        okw = ms is not None and src is not None and src.ndim == 2
+        cx.oblige("post.pairs_from_one_table", okw and getattr(jj, "masksel", None) is ms, "post", "both index arrays enumerate the True cells of one (n1 x n2) table")
+        if okw:
+            cx.oblige("post.table_shape", T.land(T.eq(src.shape[0], n1), T.eq(src.shape[1], n2)), "post", "row = segment of curve 1, column = segment of curve 2")
+            uid = itp.lib.box_id(cx, src.shape)
+            rv = T.uf(f"rav_{uid}", "int", "int", "int")
+            kw = ms.rank(rv(T.zi(i), T.zi(j)))
+            cx.oblige("post.complete", T.implies(ov(i, j), T.land(T.ge(kw, 0), T.lt(kw, m), T.eq(ii.get((kw,)), i), T.eq(jj.get((kw,)), j))), "post",
+                      "EVERY pair of segments with overlapping boxes is returned")
+        # lemma: a common point of two segments forces their boxes to overlap
+        t, s = cx.fresh("t", "real"), cx.fresh("s", "real")
+        cx.assume(T.land(T.ge(t, 0), T.le(t, 1), T.ge(s, 0), T.le(s, 1)))
+        P = lambda c, q, u: T.add(c.get((q,)), T.mul(u, T.sub(c.get((T.add(q, 1),)), c.get((q,)))))
+        common = T.land(T.eq(P(self.x1, i, t), P(self.x2, j, s)), T.eq(P(self.y1, i, t), P(self.y2, j, s)))
+        cx.oblige("lemma.crossing_pair_never_discarded", T.implies(common, ov(i, j)), "post",
+                  "segments i and j sharing a point (parameters t, s in [0, 1]) have overlapping boxes, hence are candidates")
+        cx.oblige("frame.inputs", all(a.buf.writes == 0 for a in (self.x1, self.y1, self.x2, self.y2)), "frame", "the curves are not written")
+
+    def replay(self, case, ob):
+        import numpy as np
+        from virocon._intersection import _rectangle_intersection_
+        rng = np.random.RandomState(5)
+        bad = []
+        curves = [(np.array([0.0, 1.0, 1.0, 3.0]), np.array([0.0, 1.0, 2.0, 2.0]), np.array([1.0, 1.0, 2.5]), np.array([-1.0, 1.0, 3.0])),
+                  (np.array([0.0, 2.0]), np.array([0.0, 2.0]), np.array([2.0, 3.0, 0.0]), np.array([2.0, 0.0, 1.0]))]
+        for _ in range(40):
+            a, b = rng.randint(2, 7), rng.randint(2, 7)
+            curves.append((rng.randint(0, 5, a).astype(float), rng.randint(0, 5, a).astype(float), rng.randint(0, 5, b).astype(float), rng.randint(0, 5, b).astype(float)))
+        for x1, y1, x2, y2 in curves:
+            try:
+                ii, jj = _rectangle_intersection_(x1, y1, x2, y2)
+            except Exception as e:
+                bad.append((x1.tolist(), y1.tolist(), x2.tolist(), y2.tolist(), f"raised {type(e).__name__}: {e}"))
+                continue
+            got = sorted(zip(map(int, ii), map(int, jj)))
+            want = []
+            for i in range(len(x1) - 1):
+                for j in range(len(x2) - 1):
+                    if (min(x1[i], x1[i + 1]) <= max(x2[j], x2[j + 1]) and max(x1[i], x1[i + 1]) >= min(x2[j], x2[j + 1])
+                            and min(y1[i], y1[i + 1]) <= max(y2[j], y2[j + 1]) and max(y1[i], y1[i + 1]) >= min(y2[j], y2[j + 1])):
+                        want.append((i, j))
+            if got != want:
+                bad.append((x1.tolist(), y1.tolist(), x2.tolist(), y2.tolist(), got, want))
+        if bad:
+            return {"confirmed": True, "detail": f"(x1, y1, x2, y2, returned pairs, pairs with overlapping boxes): {bad[:3]}"}
+        return {"confirmed": False, "detail": f"{len(curves)} integer-lattice polyline pairs: returned pairs = pairs with overlapping boxes"}
